@@ -10,6 +10,11 @@ PRELUDE = _s.PRELUDE + r'''
 #include <stdlib.h>
 #include "vs_http.h"
 int vs_exc_code; size_t vs_budget, g_app_total, g_app_calls; const char *g_app_src;
+#ifdef VS_LIGHT
+#define OBJ(p) __CPROVER_rw_ok(p, sizeof(*(p)))
+#else
+#define OBJ(p) FRESH(p, sizeof(*(p)))
+#endif
 /* std::string_view: pointer + length */
 struct vs_sv { const char *p; size_t n; };
 struct vs_svpair { struct vs_sv first, second; };
@@ -80,6 +85,50 @@ static inline void vs_cl_write(const struct vs_hdr_cl *h, struct vs_ostream *os)
 struct vs_request { struct vs_cstr resource, body, query_text; struct vs_opaque query, cookies, headers; int method; };
 static inline struct vs_cstr vs_query_as_str(const struct vs_request *r) { return r->query_text; }
 #define S_LIT(l)   (g_s_kind == EM_LIT && g_s_lo == LIT_LO(l) && g_s_hi == LIT_HI(l))
+#define COUNT_MAX ((size_t)1 << 32)
+#define EM_BOUND ((size_t)1 << 36)
+/* ---- the specification of the request text, piece by piece: is the sampled insertion the k-th one of the piece? ---- */
+/* "Cookie: " c0 "; " c1 ... CRLF with ci = name "=" value: 2 insertions without cookies, 4n + 1 with n cookies */
+static inline size_t vs_cookies_total(void) { return g_ncookies == 0 ? 2 : 4 * g_ncookies + 1; }
+static inline bool vs_spec_cookies(size_t k)
+{
+    if (k == 0) return S_LIT("Cookie: ");
+    if (k == vs_cookies_total() - 1) return g_s_kind == EM_CRLF;
+    /* cookie i occupies k = 1 + 4i .. 3 + 4i, the separator before cookie i+1 sits at 4 + 4i */
+    size_t r = (k - 1) % 4, i = (k - 1) / 4;
+    return r == 0 ? (g_s_kind == EM_CNAME && (size_t)g_s_num == i) : r == 1 ? S_LIT("=") : r == 2 ? (g_s_kind == EM_CVAL && (size_t)g_s_num == i) : S_LIT("; ");
+}
+static inline bool vs_spec_headers(size_t k);
+/* ghost: what splitUrl made of the request's resource */
+struct vs_sv g_host, g_path;
+static inline bool vs_spec_request(const struct vs_request *r, size_t k)
+{
+    size_t slash = (g_path.n == 0 || g_path.p[0] != '/') ? 1 : 0;
+    size_t c0 = 6 + slash, h0 = c0 + vs_cookies_total(), u0 = h0 + 4 * g_nheaders, o0 = u0 + 4, l0 = o0 + 4, e0 = l0 + (r->body.size > 0 ? 4 : 0);
+    if (k == 0) return g_s_kind == EM_METHOD && g_s_num == r->method;
+    if (k == 1) return S_LIT(" ");
+    if (slash && k == 2) return g_s_kind == EM_CHR && g_s_num == '/';
+    if (k == 2 + slash) return g_s_kind == EM_STR && g_s_ptr == (const void *)g_path.p && g_s_len == g_path.n;
+    if (k == 3 + slash) return g_s_kind == EM_STR && g_s_ptr == (const void *)r->query_text.data && g_s_len == r->query_text.size;
+    if (k == 4 + slash) return S_LIT(" HTTP/1.1");
+    if (k == 5 + slash) return g_s_kind == EM_CRLF;
+    if (k < h0) return vs_spec_cookies(k - c0);
+    if (k < u0) return vs_spec_headers(k - h0);
+    if (k < o0) return k == u0 ? S_LIT("User-Agent") : k == u0 + 1 ? S_LIT(": ") : k == u0 + 2 ? g_s_kind == EM_UA : g_s_kind == EM_CRLF;
+    if (k < l0) return k == o0 ? S_LIT("Host") : k == o0 + 1 ? S_LIT(": ") : k == o0 + 2 ? (g_s_kind == EM_HOST && g_s_ptr == (const void *)g_host.p && g_s_len == g_host.n) : g_s_kind == EM_CRLF;
+    if (k < e0) return k == l0 ? S_LIT("Content-Length") : k == l0 + 1 ? S_LIT(": ") : k == l0 + 2 ? (g_s_kind == EM_INT && g_s_num == (long)r->body.size) : g_s_kind == EM_CRLF;
+    if (k == e0) return g_s_kind == EM_CRLF;
+    return r->body.size > 0 && k == e0 + 1 && g_s_kind == EM_STR && g_s_ptr == (const void *)r->body.data && g_s_len == r->body.size;
+}
+static inline size_t vs_request_total(const struct vs_request *r)
+{
+    size_t slash = (g_path.n == 0 || g_path.p[0] != '/') ? 1 : 0;
+    return 6 + slash + vs_cookies_total() + 4 * g_nheaders + 8 + (r->body.size > 0 ? 5 : 0) + 1;
+}
+static inline bool vs_spec_headers(size_t k)       /* header k/4: name ": " value CRLF */
+{
+    return k % 4 == 0 ? g_s_kind == EM_CSTR : k % 4 == 1 ? S_LIT(": ") : k % 4 == 2 ? (g_s_kind == EM_HVAL && (size_t)g_s_num == k / 4) : g_s_kind == EM_CRLF;
+}
 '''
 TYPES = dict(_s.TYPES)
 TYPES.update({'Pistache::Http::Request': 'struct vs_request', 'Http::Request': 'struct vs_request', 'Pistache::Http::Uri::Query': 'struct vs_opaque', 'Uri::Query': 'struct vs_opaque', 'Http::Uri::Query': 'struct vs_opaque',
@@ -138,17 +187,85 @@ FUNCTIONS = list(_s.FUNCTIONS) + [
     {'q': 'Pistache::RawStreamBuf::RawStreamBuf', 'sig': 'void (char *, size_t)', 'c': 'Pistache_RawStreamBuf_ctor_ptr_n'},
     {'q': 'Pistache::match_string', 'sig': 'const char (&)[8]', 'c': 'Pistache_match_string_lit8'},
     {'q': 'Pistache::match_string', 'sig': 'const char (&)[4]', 'c': 'Pistache_match_string_lit4'},
-    {'q': 'Pistache::Http::Experimental::writeCookies'},
-    {'q': 'Pistache::Http::Experimental::writeHeaders'},
-    {'q': 'Pistache::Http::Experimental::writeHeader', 'sig_exact': 'void (std::stringstream &, const char *const &)', 'c': 'writeHeader_UserAgent'},
-    {'q': 'Pistache::Http::Experimental::writeHeader', 'sig_exact': 'void (std::stringstream &, std::basic_string<char> &&)', 'c': 'writeHeader_Host'},
-    {'q': 'Pistache::Http::Experimental::writeHeader', 'sig_exact': 'void (std::stringstream &, unsigned long &&)', 'c': 'writeHeader_ContentLength'},
-    {'q': 'Pistache::Http::Experimental::writeRequest'},
+    {'q': 'Pistache::Http::Experimental::writeCookies', 'contract': """
+        requires OBJ(streamBuf) && OBJ(cookies) && g_em_n <= EM_BOUND && g_ncookies <= COUNT_MAX && vs_exc == 0
+        assigns g_em_n, g_s_kind, g_s_num, g_s_ptr, g_s_lo, g_s_hi, g_s_len, vs_cookie_slot
+        # one Cookie header line: every cookie of the jar once, as name "=" value, separated by "; "
+        ensures g_em_n == OLD(g_em_n) + vs_cookies_total()
+        ensures (OLD(g_em_n) <= g_pos && g_pos < g_em_n) ==> vs_spec_cookies(g_pos - OLD(g_em_n))
+        ensures !(OLD(g_em_n) <= g_pos && g_pos < g_em_n) ==> (g_s_kind == OLD(g_s_kind) && g_s_num == OLD(g_s_num) && g_s_ptr == OLD(g_s_ptr) && g_s_lo == OLD(g_s_lo) && g_s_hi == OLD(g_s_hi) && g_s_len == OLD(g_s_len))""",
+     'loops': ["""
+        assigns __begin3, first, g_em_n, g_s_kind, g_s_num, g_s_ptr, g_s_lo, g_s_hi, g_s_len, vs_cookie_slot
+        invariant __begin3 <= __end3 && __end3 == g_ncookies && IFF(first, __begin3 == 0) && g_em_n == LOOP_ENTRY(g_em_n) + (__begin3 == 0 ? 0 : 4 * __begin3 - 1)
+        invariant (LOOP_ENTRY(g_em_n) <= g_pos && g_pos < g_em_n) ==> (
+            (g_pos - LOOP_ENTRY(g_em_n)) % 4 == 0 ? (g_s_kind == EM_CNAME && (size_t)g_s_num == (g_pos - LOOP_ENTRY(g_em_n)) / 4)
+            : (g_pos - LOOP_ENTRY(g_em_n)) % 4 == 1 ? S_LIT("=")
+            : (g_pos - LOOP_ENTRY(g_em_n)) % 4 == 2 ? (g_s_kind == EM_CVAL && (size_t)g_s_num == (g_pos - LOOP_ENTRY(g_em_n)) / 4) : S_LIT("; "))
+        invariant !(LOOP_ENTRY(g_em_n) <= g_pos && g_pos < g_em_n) ==> (g_s_kind == LOOP_ENTRY(g_s_kind) && g_s_num == LOOP_ENTRY(g_s_num) && g_s_ptr == LOOP_ENTRY(g_s_ptr) && g_s_lo == LOOP_ENTRY(g_s_lo) && g_s_hi == LOOP_ENTRY(g_s_hi) && g_s_len == LOOP_ENTRY(g_s_len))
+        decreases __end3 - __begin3"""]},
+    {'q': 'Pistache::Http::Experimental::writeHeaders', 'contract': """
+        requires OBJ(streamBuf) && OBJ(headers) && g_em_n <= EM_BOUND && g_nheaders <= COUNT_MAX && vs_exc == 0
+        assigns g_em_n, g_s_kind, g_s_num, g_s_ptr, g_s_lo, g_s_hi, g_s_len, vs_idx_slot_v
+        # every typed header exactly once: name ": " value CRLF
+        ensures g_em_n == OLD(g_em_n) + 4 * g_nheaders
+        ensures (OLD(g_em_n) <= g_pos && g_pos < g_em_n) ==> vs_spec_headers(g_pos - OLD(g_em_n))
+        ensures !(OLD(g_em_n) <= g_pos && g_pos < g_em_n) ==> (g_s_kind == OLD(g_s_kind) && g_s_num == OLD(g_s_num) && g_s_ptr == OLD(g_s_ptr) && g_s_lo == OLD(g_s_lo) && g_s_hi == OLD(g_s_hi) && g_s_len == OLD(g_s_len))""",
+     'loops': ["""
+        assigns __begin3, g_em_n, g_s_kind, g_s_num, g_s_ptr, g_s_lo, g_s_hi, g_s_len, vs_idx_slot_v
+        invariant __begin3 <= __end3 && __end3 == g_nheaders && g_em_n == LOOP_ENTRY(g_em_n) + 4 * __begin3
+        invariant (LOOP_ENTRY(g_em_n) <= g_pos && g_pos < g_em_n) ==> (
+            (g_pos - LOOP_ENTRY(g_em_n)) % 4 == 0 ? g_s_kind == EM_CSTR : (g_pos - LOOP_ENTRY(g_em_n)) % 4 == 1 ? S_LIT(": ")
+            : (g_pos - LOOP_ENTRY(g_em_n)) % 4 == 2 ? (g_s_kind == EM_HVAL && (size_t)g_s_num == (g_pos - LOOP_ENTRY(g_em_n)) / 4) : g_s_kind == EM_CRLF)
+        invariant !(LOOP_ENTRY(g_em_n) <= g_pos && g_pos < g_em_n) ==> (g_s_kind == LOOP_ENTRY(g_s_kind) && g_s_num == LOOP_ENTRY(g_s_num) && g_s_ptr == LOOP_ENTRY(g_s_ptr) && g_s_lo == LOOP_ENTRY(g_s_lo) && g_s_hi == LOOP_ENTRY(g_s_hi) && g_s_len == LOOP_ENTRY(g_s_len))
+        decreases __end3 - __begin3"""]},
+    {'q': 'Pistache::Http::Experimental::writeHeader', 'sig_exact': 'void (std::stringstream &, const char *const &)', 'c': 'writeHeader_UserAgent', 'contract': """
+        requires OBJ(streamBuf) && OBJ(args) && g_em_n <= EM_BOUND && vs_exc == 0
+        assigns g_em_n, g_s_kind, g_s_num, g_s_ptr, g_s_lo, g_s_hi, g_s_len
+        # User-Agent ": " <what the header was constructed from> CRLF
+        ensures g_em_n == OLD(g_em_n) + 4
+        ensures g_pos == OLD(g_em_n) ==> S_LIT("User-Agent")
+        ensures g_pos == OLD(g_em_n) + 1 ==> S_LIT(": ")
+        ensures g_pos == OLD(g_em_n) + 2 ==> (g_s_kind == EM_UA && g_s_ptr == (const void *)*args)
+        ensures g_pos == OLD(g_em_n) + 3 ==> g_s_kind == EM_CRLF
+        ensures !(OLD(g_em_n) <= g_pos && g_pos < g_em_n) ==> (g_s_kind == OLD(g_s_kind) && g_s_num == OLD(g_s_num) && g_s_ptr == OLD(g_s_ptr) && g_s_lo == OLD(g_s_lo) && g_s_hi == OLD(g_s_hi) && g_s_len == OLD(g_s_len))"""},
+    {'q': 'Pistache::Http::Experimental::writeHeader', 'sig_exact': 'void (std::stringstream &, std::basic_string<char> &&)', 'c': 'writeHeader_Host', 'contract': """
+        requires OBJ(streamBuf) && OBJ(args) && g_em_n <= EM_BOUND && vs_exc == 0
+        assigns g_em_n, g_s_kind, g_s_num, g_s_ptr, g_s_lo, g_s_hi, g_s_len
+        # Host ": " <what the header was constructed from> CRLF
+        ensures g_em_n == OLD(g_em_n) + 4
+        ensures g_pos == OLD(g_em_n) ==> S_LIT("Host")
+        ensures g_pos == OLD(g_em_n) + 1 ==> S_LIT(": ")
+        ensures g_pos == OLD(g_em_n) + 2 ==> (g_s_kind == EM_HOST && g_s_ptr == (const void *)args->data && g_s_len == args->size)
+        ensures g_pos == OLD(g_em_n) + 3 ==> g_s_kind == EM_CRLF
+        ensures !(OLD(g_em_n) <= g_pos && g_pos < g_em_n) ==> (g_s_kind == OLD(g_s_kind) && g_s_num == OLD(g_s_num) && g_s_ptr == OLD(g_s_ptr) && g_s_lo == OLD(g_s_lo) && g_s_hi == OLD(g_s_hi) && g_s_len == OLD(g_s_len))"""},
+    {'q': 'Pistache::Http::Experimental::writeHeader', 'sig_exact': 'void (std::stringstream &, unsigned long &&)', 'c': 'writeHeader_ContentLength', 'contract': """
+        requires OBJ(streamBuf) && OBJ(args) && g_em_n <= EM_BOUND && vs_exc == 0
+        assigns g_em_n, g_s_kind, g_s_num, g_s_ptr, g_s_lo, g_s_hi, g_s_len
+        # Content-Length ": " <what the header was constructed from> CRLF
+        ensures g_em_n == OLD(g_em_n) + 4
+        ensures g_pos == OLD(g_em_n) ==> S_LIT("Content-Length")
+        ensures g_pos == OLD(g_em_n) + 1 ==> S_LIT(": ")
+        ensures g_pos == OLD(g_em_n) + 2 ==> (g_s_kind == EM_INT && g_s_num == (long)*args)
+        ensures g_pos == OLD(g_em_n) + 3 ==> g_s_kind == EM_CRLF
+        ensures !(OLD(g_em_n) <= g_pos && g_pos < g_em_n) ==> (g_s_kind == OLD(g_s_kind) && g_s_num == OLD(g_s_num) && g_s_ptr == OLD(g_s_ptr) && g_s_lo == OLD(g_s_lo) && g_s_hi == OLD(g_s_hi) && g_s_len == OLD(g_s_len))"""},
+    {'q': 'Pistache::Http::Experimental::writeRequest',
+     'ghost': [('Pistache_Http_Experimental_splitUrl', 'after', 'g_host = $RET.first; g_path = $RET.second;')], 'contract': """
+        requires FRESH(streamBuf, sizeof(*streamBuf)) && FRESH(request, sizeof(*request)) && request->resource.size <= MAXLEN && FRESH(request->resource.data, request->resource.size + 1)
+        requires request->resource.data[request->resource.size] == 0 && request->body.size <= MAXLEN && request->query_text.size <= MAXLEN
+        requires g_em_n == 0 && g_ncookies <= COUNT_MAX && g_nheaders <= COUNT_MAX && vs_exc == 0
+        assigns g_em_n, g_s_kind, g_s_num, g_s_ptr, g_s_lo, g_s_hi, g_s_len, vs_cookie_slot, vs_idx_slot_v, g_host, g_path, g_hit_end, g_j
+        # C05 (client): the request text is exactly: method SP ["/"] path query " HTTP/1.1" CRLF, one Cookie line with every cookie once, every
+        # header once, User-Agent, Host (the host piece of the resource), Content-Length == body size iff there is a body, blank line, body.
+        # path and host are the adjacent pieces splitUrl cuts out of the resource, the path reaching its end
+        ensures vs_exc == 0 && g_em_n == vs_request_total(request)
+        ensures g_pos < g_em_n ==> vs_spec_request(request, g_pos)
+        ensures __CPROVER_same_object(g_path.p, request->resource.data) && (size_t)__CPROVER_POINTER_OFFSET(g_path.p) + g_path.n == request->resource.size
+        ensures __CPROVER_same_object(g_host.p, request->resource.data) && (size_t)__CPROVER_POINTER_OFFSET(g_host.p) + g_host.n == (size_t)__CPROVER_POINTER_OFFSET(g_path.p)"""},
     {'q': 'Pistache::Http::Experimental::splitUrl', 'contract': """
         requires FRESH(url, sizeof(*url)) && url->size <= MAXLEN && FRESH(url->data, url->size + 1) && vs_exc == 0
         assigns g_hit_end, g_j
         # host and page are adjacent pieces of the url that together reach its end; the page is empty or starts at the first '/' or '?'
-        ensures vs_exc == 0 && __CPROVER_same_object(RET.first.p, url->data) && __CPROVER_same_object(RET.second.p, url->data)
+        ensures vs_exc == 0 && IN_RANGE(url->data, RET.first.p, url->data + url->size) && IN_RANGE(url->data, RET.second.p, url->data + url->size)
         ensures (size_t)__CPROVER_POINTER_OFFSET(RET.first.p) + RET.first.n == (size_t)__CPROVER_POINTER_OFFSET(RET.second.p)
         ensures (size_t)__CPROVER_POINTER_OFFSET(RET.second.p) + RET.second.n == url->size
         ensures RET.second.n > 0 ==> (RET.second.p[0] == '/' || RET.second.p[0] == '?')"""},
@@ -157,5 +274,12 @@ ADV = 'Pistache_StreamCursor_advance'
 DEVIRT = {('Pistache_Http_Experimental_writeHeaders', 'name'): 'vs_hdr_name', ('Pistache_Http_Experimental_writeHeaders', 'write'): 'vs_hdr_write',
           ('writeHeader_UserAgent', 'write'): 'vs_ua_write', ('writeHeader_Host', 'write'): 'vs_host_write', ('writeHeader_ContentLength', 'write'): 'vs_cl_write'}
 PROOFS = [
+    {'name': 'client_writeCookies', 'enforce': 'Pistache_Http_Experimental_writeCookies', 'loops': 'contracts', 'props': ['C05']},
+    {'name': 'client_writeHeaders', 'enforce': 'Pistache_Http_Experimental_writeHeaders', 'loops': 'contracts', 'props': ['C05']},
+    {'name': 'client_writeHeader_UserAgent', 'enforce': 'writeHeader_UserAgent', 'props': ['C05']},
+    {'name': 'client_writeHeader_Host', 'enforce': 'writeHeader_Host', 'props': ['C05']},
+    {'name': 'client_writeHeader_ContentLength', 'enforce': 'writeHeader_ContentLength', 'props': ['C05']},
+    {'name': 'client_writeRequest', 'enforce': 'Pistache_Http_Experimental_writeRequest', 'defs': ['-DVS_LIGHT'], 'props': ['C05'], 'cost': 10,
+     'replace': ['Pistache_Http_Experimental_splitUrl', 'Pistache_Http_Experimental_writeCookies', 'Pistache_Http_Experimental_writeHeaders', 'writeHeader_UserAgent', 'writeHeader_Host', 'writeHeader_ContentLength']},
     {'name': 'splitUrl', 'enforce': 'Pistache_Http_Experimental_splitUrl', 'replace': ['Pistache_match_string', 'Pistache_match_literal', 'Pistache_match_until_il'], 'props': ['C05']},
 ]
